@@ -78,6 +78,14 @@ func RetryPolicy(t *Truth) *Report {
 				if !lastOne {
 					rep.violate("retry-policy", "attempt-after-the-flush-context-had-ended", map[string]any{"cut": describe(r, a), "next": describe(r, atts[i+1]), "deadline": fmtT(r, a.Deadline)})
 				}
+				// ... and it ended WITH the flush: a delivery whose context ends long before the flush deadline although
+				// nothing stopped the dispatcher (no reload, restart or shutdown around that instant) was cut by
+				// something else - e.g. by a sibling integration's failure
+				if !a.Deadline.IsZero() && a.End.Before(a.Deadline.Add(-time.Second)) {
+					if ep := r.EpochAt(a.Start); ep != nil && ep.To.After(a.End.Add(time.Second)) && r.End.After(a.End.Add(time.Second)) {
+						rep.violate("retry-policy", "delivery-cut-long-before-the-flush-deadline", map[string]any{"attempt": describe(r, a), "deadline": fmtT(r, a.Deadline), "cut_at": fmtT(r, a.End)})
+					}
+				}
 				if !a.Deadline.IsZero() && a.End.After(a.Deadline.Add(time.Second)) {
 					ep := r.EpochAt(a.Start)
 					if ep != nil && ep.To.After(a.End) {
